@@ -4,5 +4,6 @@ CONSTANTS
   NWrites = 0
   NReads = 0
   SizedOutsideLock = FALSE
+  ShutdownInline = FALSE
   ClientGuarded = TRUE
   Part = "alerts"
